@@ -455,3 +455,7 @@ def heap_c15(tier, seed, params):
     for op in ("big_default_boxed", "big_boxed_generate", "big_box_arr", "big_boxed_collect", "big_into_vec"):
         out.append("op=%s" % op)
     return out
+
+
+def heap_c08(tier, seed, params):
+    return ["op=%s n=%d kind=%s fault=none" % (op, n, kind) for kind in HEAP_KINDS for n in HEAP_NS for op in ("boxed_generate", "default_boxed")]
